@@ -154,6 +154,10 @@ async fn run_behaviour(rig: &Rig, b: &Value, idx: u64, f: u64, coarse: bool, tra
     let mut coarse_done: std::collections::BTreeSet<(u64, u64)> = Default::default();
     let mut trackers: BTreeMap<u64, repair::Tracker> = rig.nodes.keys().map(|n| (*n, repair::Tracker::default())).collect();
     let ks = format!("b{}", idx);
+    // tracked mode: a second keyspace that receives exactly what concerns the last key of the universe (same stamps,
+    // same deliveries, same losses): the real poller rounds then have two keyspaces that change at different moments
+    let shadow: Option<String> = tracked.then(|| format!("s{}", idx));
+    let skey: u64 = b["expect"].as_array().map(|a| a.len() as u64).unwrap_or(0);
     let tm = TimeMap { base_s: 100_000 + idx * 40_000, unit_s: 3600 / f };
     let mut exch: BTreeMap<(u64, u64), Exchange> = BTreeMap::new();
     let steps = b["hist"].as_array().unwrap();
@@ -191,6 +195,14 @@ async fn run_behaviour(rig: &Rig, b: &Value, idx: u64, f: u64, coarse: bool, tra
                     out.tool_error = Some(format!("step {i}: local request failed"));
                     return out;
                 }
+                if let (Some(sk), true) = (shadow.as_ref(), keys.contains(&skey)) {
+                    let its: Vec<(u64, HLCTimestamp)> = vec![(skey, ts)];
+                    let actor = n.grp().get_or_create_keyspace(sk).await;
+                    let _ = match del {
+                        false => actor.send(Set { source: 0, doc: docs_of(&its).remove(0), ctx: None, _marker: PhantomData::<MemStore> }).await.is_ok(),
+                        true => actor.send(Del { source: 0, doc: metas_of(&its).remove(0), _marker: PhantomData::<MemStore> }).await.is_ok(),
+                    };
+                }
             },
             "tick" | "lose" | "finish" | "time" => {},
             "deliver" => {
@@ -204,8 +216,26 @@ async fn run_behaviour(rig: &Rig, b: &Value, idx: u64, f: u64, coarse: bool, tra
                 let sender = its.first().or(removed.first()).or(modified.first()).map(|e| e.1.node()).unwrap_or(0);
                 let sender_addr = rig.nodes.get(&(sender as u64)).map(|n| n.addr).unwrap_or(to.addr);
                 let cts = tm.stamp(&json!([m["cts"].as_u64().unwrap(), 0, sender]));
-                let ctx = Some(Context { node_id: sender, node_addr: sender_addr });
+                let mk_ctx = || Some(Context { node_id: sender, node_addr: sender_addr });
+                let ctx = mk_ctx();
                 let client = driver_client(to);
+                let only = |v: &Vec<(u64, HLCTimestamp)>| -> Vec<(u64, HLCTimestamp)> { v.iter().filter(|e| e.0 == skey).cloned().collect() };
+                let (s_its, s_removed, s_modified) = (only(&its), only(&removed), only(&modified));
+                if let Some(sk) = shadow.as_ref() {
+                    // the shadow keyspace gets its part of singles and bulk messages as messages of its own; its part of a
+                    // batch travels in the same BatchPayload (below)
+                    let r = match (kind, del) {
+                        ("single", false) | ("multi", false) if !s_its.is_empty() =>
+                            client.send(&PutPayload { keyspace: sk.clone(), ctx: mk_ctx(), document: docs_of(&s_its).remove(0), timestamp: cts }).await.map(|_| ()),
+                        ("single", true) | ("multi", true) if !s_its.is_empty() =>
+                            client.send(&RemovePayload { keyspace: sk.clone(), document: metas_of(&s_its).remove(0), timestamp: cts }).await.map(|_| ()),
+                        _ => Ok(()),
+                    };
+                    if let Err(e) = r {
+                        out.tool_error = Some(format!("step {i}: delivery to the shadow keyspace failed: {e:?}"));
+                        return out;
+                    }
+                }
                 let res = match (kind, del) {
                     ("single", false) => client.send(&PutPayload { keyspace: ks.clone(), ctx, document: docs_of(&its).remove(0), timestamp: cts }).await.map(|_| ()),
                     ("single", true) => client.send(&RemovePayload { keyspace: ks.clone(), document: metas_of(&its).remove(0), timestamp: cts }).await.map(|_| ()),
@@ -219,10 +249,18 @@ async fn run_behaviour(rig: &Rig, b: &Value, idx: u64, f: u64, coarse: bool, tra
                             i += 1;
                             let mut batch = BatchPayload { timestamp: cts, modified: DocVec::new(), removed: DocVec::new() };
                             if !modified.is_empty() {
-                                batch.modified.push(MultiPutPayload { keyspace: ks.clone(), ctx, documents: docs_of(&modified), timestamp: cts });
+                                batch.modified.push(MultiPutPayload { keyspace: ks.clone(), ctx: mk_ctx(), documents: docs_of(&modified), timestamp: cts });
                             }
                             if !removed.is_empty() {
                                 batch.removed.push(MultiRemovePayload { keyspace: ks.clone(), documents: metas_of(&removed), timestamp: cts });
+                            }
+                            if let Some(sk) = shadow.as_ref() {
+                                if !s_modified.is_empty() {
+                                    batch.modified.push(MultiPutPayload { keyspace: sk.clone(), ctx: mk_ctx(), documents: docs_of(&s_modified), timestamp: cts });
+                                }
+                                if !s_removed.is_empty() {
+                                    batch.removed.push(MultiRemovePayload { keyspace: sk.clone(), documents: metas_of(&s_removed), timestamp: cts });
+                                }
                             }
                             client.send(&batch).await.map(|_| ())
                         } else {
@@ -232,6 +270,10 @@ async fn run_behaviour(rig: &Rig, b: &Value, idx: u64, f: u64, coarse: bool, tra
                                 let actor = to.grp().get_or_create_keyspace(&ks).await;
                                 let _ = actor.send(MultiDel { source: 0, docs: metas_of(&removed), _marker: PhantomData::<MemStore> }).await;
                             }
+                            if let (Some(sk), false) = (shadow.as_ref(), s_removed.is_empty()) {
+                                let actor = to.grp().get_or_create_keyspace(sk).await;
+                                let _ = actor.send(MultiDel { source: 0, docs: metas_of(&s_removed), _marker: PhantomData::<MemStore> }).await;
+                            }
                             Ok(())
                         }
                     },
@@ -239,6 +281,10 @@ async fn run_behaviour(rig: &Rig, b: &Value, idx: u64, f: u64, coarse: bool, tra
                         if !modified.is_empty() {
                             let actor = to.grp().get_or_create_keyspace(&ks).await;
                             let _ = actor.send(MultiSet { source: 0, docs: docs_of(&modified), ctx: None, _marker: PhantomData::<MemStore> }).await;
+                        }
+                        if let (Some(sk), false) = (shadow.as_ref(), s_modified.is_empty()) {
+                            let actor = to.grp().get_or_create_keyspace(sk).await;
+                            let _ = actor.send(MultiSet { source: 0, docs: docs_of(&s_modified), ctx: None, _marker: PhantomData::<MemStore> }).await;
                         }
                         Ok(())
                     },
@@ -364,6 +410,10 @@ async fn run_behaviour(rig: &Rig, b: &Value, idx: u64, f: u64, coarse: bool, tra
                 let n = &rig.nodes[&s["n"].as_u64().unwrap()];
                 let actor = n.grp().get_or_create_keyspace(&ks).await;
                 let _ = actor.send(PurgeDeletes(PhantomData::<MemStore>)).await;
+                if let Some(sk) = shadow.as_ref() {
+                    let actor = n.grp().get_or_create_keyspace(sk).await;
+                    let _ = actor.send(PurgeDeletes(PhantomData::<MemStore>)).await;
+                }
             },
             "restart" => {
                 // a new group on the same storage takes over the node's services
@@ -451,6 +501,22 @@ async fn run_behaviour(rig: &Rig, b: &Value, idx: u64, f: u64, coarse: bool, tra
         }
         reads.insert(id.to_string(), Value::Array(row));
         final_sets.insert(*id, set);
+    }
+    if let Some(sk) = shadow.as_ref() {
+        // the shadow keyspace holds the last key exactly as the main keyspace does, and nothing else
+        for (id, n) in &rig.nodes {
+            for k in keys.iter() {
+                let doc = n.store.get(sk, *k).await.unwrap();
+                let got = match &doc {
+                    Some(d) => tm.back(&d.last_updated()),
+                    None => json!([]),
+                };
+                let want = if *k == skey { b["expect"][(skey - 1) as usize].clone() } else { json!([]) };
+                if got != want {
+                    out.why.push(("C01".into(), format!("node {id}, second keyspace: reads key {k} = {got}, last-writer-wins over the operations issued there gives {want}")));
+                }
+            }
+        }
     }
     // C05 at cluster level: every pair has exchanged, so nobody has anything left to fetch from anybody
     for (a, sa) in &final_sets {
